@@ -716,13 +716,29 @@ def judge(ext, pred, o):
     if rep:
         return [("V1", f"reported:{rep[0][1]}@{ph}", f"dead node reported as {rep[0][1]}; leftovers {list(real)} ({where})")]
     if real:
-        if real in predicted:
-            return [("V2", f"leak:{collapse(real)}@{ph}",
-                     f"leftover {list(real)} after the survivor's cleanup, as TLC predicts for this crash point from the "
-                     f"extracted step order; consequences: {conseq} ({where})")]
-        return [("V1", f"leak_unpredicted:{collapse(real)}@{ph}",
-                 f"leftover {list(real)} after the survivor's cleanup (model predicts {sorted(predicted)}); consequences: "
-                 f"{conseq} ({where})")]
+        out = []
+        if o.get("second_killed"):
+            # two crashes compose two causes: the token files the killed CLEANER left (it dies inside its own drop)
+            # are reported on their own, the rest is judged like a single crash
+            tokens = ("TC", "TS", "TO")
+            tok = tuple(r for r in real if r in tokens)
+            real = tuple(r for r in real if r not in tokens)
+            ptok = any(any(x in tokens for x in st) for st in predicted)
+            predicted = {tuple(x for x in st if x not in tokens) for st in predicted}
+            if tok:
+                out.append(("V2" if ptok else "V1", "leak:TOK@cleaner_crash" if ptok else "leak_unpredicted:TOK@cleaner_crash",
+                            f"token files {list(tok)} left for ever after the first cleaner was killed inside its own drop "
+                            f"(the node is no longer listed, no API can remove them) ({where})"))
+        if real and real in predicted:
+            out.append(("V2", f"leak:{collapse(real)}@{ph}",
+                        f"leftover {list(real)} after the survivor's cleanup, as TLC predicts for this crash point from "
+                        f"the extracted step order; consequences: {conseq} ({where})"))
+        elif real:
+            out.append(("V1", f"leak_unpredicted:{collapse(real)}@{ph}",
+                        f"leftover {list(real)} after the survivor's cleanup (model predicts {sorted(predicted)}); "
+                        f"consequences: {conseq} ({where})"))
+        if out:
+            return out
     if o.get("left_unknown"):
         return [("V1", f"leak_unknown@{ph}", f"leftover of unknown kind {o['left_unknown']} ({where})")]
     other = [x for x in probs if x[0] in ("unusable", "corrupted", "still_listed")]
